@@ -87,6 +87,7 @@ Qed.
 Definition known_tok (t : Redirect.token) (last : bool) : bool :=
   tag_eqb (fst t) TNone &&
   (has_char c_gt (snd t) || str_eqb (snd t) [c_pipe] || str_eqb (snd t) s_lt || str_eqb (snd t) s_lt3
+   || att_lt (TNone, snd t)           (* /repo 543507e: a value <file is split into < and a file name *)
    || (last && str_eqb (snd t) [c_amp])).
 
 Lemma known_tok_split t last :
@@ -94,7 +95,7 @@ Lemma known_tok_split t last :
 Proof.
   destruct t as [tg w]. unfold known_tok, PI.inert_tok, PI.inert_text, PI.amp_tok. cbn [fst snd].
   destruct (tag_eqb tg TNone); cbn [andb negb orb]; [|split; [intros _; split; [reflexivity|reflexivity]|reflexivity]].
-  destruct (has_char c_gt w), (str_eqb w [c_pipe]), (str_eqb w s_lt), (str_eqb w s_lt3), last, (str_eqb w [c_amp]);
+  destruct (has_char c_gt w), (str_eqb w [c_pipe]), (str_eqb w s_lt), (str_eqb w s_lt3), (att_lt (TNone, w)), last, (str_eqb w [c_amp]);
     cbn; split; try tauto; try (intros [H1 H2]; try discriminate; try (specialize (H2 eq_refl); discriminate)); auto.
 Qed.
 
